@@ -244,6 +244,77 @@ def e2e(a, ia, ib, x):
 '''
 
 
+MULTI = '''
+import enum, itertools, dataclasses
+from adaptix import Retort, P, enum_by_name, enum_by_value, enum_by_exact_value, flag_by_member_names, flag_by_exact_value, loader, dumper, bound
+from adaptix.conversion import ConversionRetort, allow_unlinked_optional, forbid_unlinked_optional
+class EA(enum.Enum):
+    X = 1
+    Y = 2
+class EB(enum.Enum):
+    P_ = 3
+    Q = 4
+class EC(enum.Enum):
+    Z = 5
+    W = 6
+class FA(enum.Flag):
+    A = 1
+    B = 2
+class FB(enum.Flag):
+    C = 1
+    D = 2
+for _v in range(4): FA(_v); FB(_v)
+# every order of first use of a provider built from SEVERAL predicates: it serves each of its predicates, every time, and nothing else
+ORDERS = list(itertools.permutations(("EA", "EB", "EC", "int"), 4))
+TP = {"EA": EA, "EB": EB, "EC": EC, "int": int, "FA": FA, "FB": FB}
+MULTI_CASES = []
+for _order in ORDERS:
+    _r = Retort(recipe=[enum_by_name(EA, EB), flag_by_member_names(FA, FB)])
+    _got = {}
+    for _rep in (0, 1):
+        for _n in _order + ("FB", "FA"):
+            _got[(_n, _rep)] = (_r.get_loader(TP[_n]), _r.get_dumper(TP[_n]))
+    MULTI_CASES.append(_got)
+NMC = len(MULTI_CASES)
+@dataclasses.dataclass
+class US:
+    a: int
+@dataclasses.dataclass
+class UD:
+    a: int
+    x: int = 7
+    y: int = 8
+    z: int = 9
+def _conv_ok(mk):
+    try: mk(); return True
+    except Exception: return False
+# allow_unlinked_optional with several predicates: all three optional fields may stay unlinked, in whatever order the fields are asked for
+CR_ALLOW = ConversionRetort(recipe=[allow_unlinked_optional("x", "y", "z")])
+CR_FORBID = ConversionRetort(recipe=[forbid_unlinked_optional("x", "y", "z")])
+CONV_ALLOW = [CR_ALLOW.get_converter(US, UD) for _ in range(2)]
+FORBID_REFUSED = [not _conv_ok(lambda: CR_FORBID.get_converter(US, UD)) for _ in range(2)]
+def multi(ci, rep, mi, v):
+    got = MULTI_CASES[pick(ci, NMC)]
+    rep = 1 if rep else 0
+    mi = 1 if mi else 0
+    for n, E in (("EA", EA), ("EB", EB)):
+        member = list(E)[mi]
+        ld, dp = got[(n, rep)]
+        if dp(member) != member.name or ld(member.name) is not member: return False          # by name
+        if outcome(ld, member.value)[0] != "load_error": return False
+    member = list(EC)[mi]
+    ld, dp = got[("EC", rep)]
+    if dp(member) != member.value or ld(member.value) is not member: return False              # untouched: by value
+    ld, dp = got[("int", rep)]
+    if ld(v) != v or dp(v) != v: return False
+    for n, F in (("FA", FA), ("FB", FB)):
+        ld, dp = got[(n, rep)]
+        names = [m.name for m in F if m.value & (mi + 1)]
+        if sorted(dp(F(mi + 1))) != sorted(names) or ld(names) != F(mi + 1): return False
+    return CONV_ALLOW[rep](US(v)) == UD(v, 7, 8, 9) and FORBID_REFUSED[rep]
+'''
+
+
 def build(tier, seed):
     quick = tier == "quick"
     tmo = 90 if quick else 600
@@ -280,5 +351,10 @@ def chk_identities(n, l0, l1, l2):
     me = Module("c10_e2e").pre(SETUP).pre(E2E)
     me.ob("bound_e2e", "a: int, ia: int, ib: int, x: int", "return e2e(a, ia, ib, x)", timeout=tmo,
           family="end-to-end: predicates select the marker loader at the probed locations", bounds="all int field values")
-    return Plan("C10", [m, me], assumptions=["CrossHair's regex model for the fixed pattern list"],
+    mm = Module("c10_multi").pre(MULTI)
+    mm.ob("multi_predicate_providers", "ci: int, rep: bool, mi: bool, v: int", "return multi(ci, rep, mi, v)", pre=["0 <= ci < 24"], timeout=tmo,
+          family="providers built from several predicates (merged with |) serve each predicate on every request, in every order of first use",
+          bounds="enum_by_name(EA, EB) + flag_by_member_names(FA, FB) in one retort: 24 orders of first use x first / repeated request x 2 members; a third enum and int stay untouched; "
+                 "allow_unlinked_optional / forbid_unlinked_optional with three predicates, asked twice; symbolic int")
+    return Plan("C10", [m, me, mm], assumptions=["CrossHair's regex model for the fixed pattern list"],
                 bounds={"stack depth": "4", "chain length": "3"}, outside=["arbitrary user regexes", "predicate nesting > 2"])
